@@ -72,6 +72,8 @@ type c18Cfg struct {
 	// same predicate followed in the other direction (dep entities point at main entities AND main
 	// entities point at dep entities through one predicate)
 	Mirror bool `json:"mirror,omitempty"`
+	// LatestOnly: the source's LatestOnly option (main and dependency changes are read latest-only)
+	LatestOnly bool `json:"latestOnly,omitempty"`
 }
 
 // hops the entity generator has to provide references for
@@ -132,6 +134,7 @@ func c18GenCfg(t *rapid.T, p []string) c18Cfg {
 		c.Via = "json"
 	}
 	c.URIPred = rapid.IntRange(0, 3).Draw(t, "uriPred") == 0
+	c.LatestOnly = rapid.IntRange(0, 3).Draw(t, "latestOnly") == 0
 	if n == 1 && c.Via == "json" && rapid.IntRange(0, 2).Draw(t, "mirror") == 0 {
 		c.Mirror = true
 	}
@@ -152,6 +155,9 @@ func (c c18Cfg) predName(p []string, curie string) string {
 
 func (c c18Cfg) jobJSON(p []string) string {
 	src := map[string]any{"Type": "MultiSource", "Name": "main"}
+	if c.LatestOnly {
+		src["LatestOnly"] = true
+	}
 	var tr map[string]any
 	if c.Via == "json" {
 		var joins []any
@@ -718,6 +724,9 @@ func (c *c18M) classes() []string {
 	c.cls[fmt.Sprintf("hops:%d", len(c.cfg.Hops))] = true
 	c.cls["dirs:"+dirs] = true
 	c.cls["via:"+c.cfg.Via] = true
+	if c.cfg.LatestOnly {
+		c.cls["source-latest-only"] = true
+	}
 	if len(c.cfg.Hops) == 3 && c.cfg.Hops[0].DS == "main" {
 		c.cls["path-through-the-main-dataset"] = true
 	}
@@ -876,4 +885,28 @@ func TestVerifProbe_F30(t *testing.T) {
 	c.sync(0)
 	c.write(c18Op{K: "write", DS: "dep", Ents: []*kit.Ent{e("d2", 1, nil)}})
 	c.sync(2) // delivery 1: m1 (removed link, first dependency); delivery 2: m0 (second dependency) is refused once
+}
+
+// F35 (fixed): with the source's LatestOnly option the changes of a dependency
+// were read latest-only as well. The lookup of removed first-hop links goes
+// back only to the change before the page; when the version that removed a
+// link is superseded by a later one before the job runs, it was skipped and
+// the main entity it used to link to was never emitted.
+func TestVerifProbe_F35(t *testing.T) {
+	defer kit.CleanupScratch()
+	h := newVJHub(vjOpts{})
+	defer h.close()
+	p := h.P[0]
+	j0 := p + ":j0"
+	cfg := c18Cfg{Hops: []c18Hop{{DS: "main", Pred: j0, Inverse: false}}, Via: "json", Batch: 1, LatestOnly: true}
+	c := newC18M(t, h, cfg)
+	none := map[string]any{}
+	m2, m3, d0, d2 := p+":m2", p+":m3", p+":d0", p+":d2"
+	c.write(c18Op{K: "write", DS: "main", Ents: []*kit.Ent{{ID: m2, Props: none, Refs: none}}})
+	c.write(c18Op{K: "write", DS: "dep", Ents: []*kit.Ent{{ID: d0, Props: none, Refs: map[string]any{j0: []any{m3, m2}}}}})
+	c.sync(0)
+	// d0 loses its link to m2 in a version that is superseded before the job runs again
+	c.write(c18Op{K: "write", DS: "dep", Ents: []*kit.Ent{{ID: d0, Props: none, Refs: map[string]any{j0: m3}, Deleted: true}}})
+	c.write(c18Op{K: "write", DS: "dep", Ents: []*kit.Ent{{ID: d2, Props: none, Refs: none}, {ID: d0, Props: none, Refs: map[string]any{j0: m3}}}})
+	c.sync(0) // m2 (as linked at the previous run) must be emitted
 }
